@@ -40,8 +40,15 @@ Fixpoint fold_res {A B : Type} (f : B -> A -> res B) (l : list A) (b : B) : res 
   | a :: t => do b' <- f b a; fold_res f t b'
   end.
 
-(* lines 1153-1221, with rr._byweekno truthy *)
-Definition build_wnomask (year ylen ywd wk : Z) (wdm : list Z) (bwn : list Z) : res (list Z) :=
+(* lines 1208-1210: what the code reads about the previous year, ValueError for year 0 *)
+Definition last_year_info (year : Z) : res (Z * Z) :=
+  do _ <- date_ord (year - 1) 1 1;
+  Ok (Cal.weekday (year - 1) 1 1, year_len (year - 1)).
+
+(* lines 1153-1221, with rr._byweekno truthy; `linfo` is evaluated by the code only where the
+   model uses it (inside the `-1 not in byweekno` branch) *)
+Definition build_wnomask_core (linfo : res (Z * Z)) (ylen ywd wk : Z) (wdm : list Z) (bwn : list Z)
+  : res (list Z) :=
   let mask0 := py_repeat 0 (ylen + 7) in
   let firstwkst := (7 - ywd + wk) mod 7 in
   let '(no1wkst, wyearlen) :=
@@ -64,10 +71,9 @@ Definition build_wnomask (year ylen ywd wk : Z) (wdm : list Z) (bwn : list Z) : 
   if negb (no1wkst =? 0) then
     do lnumweeks <-
       (if negb (memZ (-1) bwn) then
-         do _ <- date_ord (year - 1) 1 1;
-         let lyearweekday := Cal.weekday (year - 1) 1 1 in
+         do li <- linfo;
+         let '(lyearweekday, lyearlen) := li in
          let lno1wkst := (7 - lyearweekday + wk) mod 7 in
-         let lyearlen := year_len (year - 1) in
          if 4 <=? lno1wkst then Ok (52 + ((lyearlen + (lyearweekday - wk) mod 7) mod 7) / 4)
          else Ok (52 + ((ylen - no1wkst) mod 7) / 4)
        else Ok (-1));
@@ -75,6 +81,9 @@ Definition build_wnomask (year ylen ywd wk : Z) (wdm : list Z) (bwn : list Z) : 
       fold_res (fun mask i => py_set mask i 1) (zrange 0 no1wkst) mask2
     else Ok mask2
   else Ok mask2.
+
+Definition build_wnomask (year ylen ywd wk : Z) (wdm : list Z) (bwn : list Z) : res (list Z) :=
+  build_wnomask_core (last_year_info year) ylen ywd wk wdm bwn.
 
 (* lines 1238-1252: one (first, last) range, all (wday, n) pairs *)
 Definition nwd_range (wdm : list Z) (pairs : list (Z * Z)) (mask : list Z) (rg : list Z)
